@@ -130,3 +130,22 @@ package base
 // the parser cache is a lazily initialised process-wide singleton (sync.Once); abstract here
 //@ ext seata.apache.org/seata-go/pkg/datasource/sql/undo/parser.GetCache
 //@   ensures result != nil
+
+// C11: deleting the undo log of committed branches. The SQL text (placeholder list) and the joined
+// argument strings are built by string helpers that are abstract here.
+//@ func (*BaseUndoLogManager).getBatchDeleteUndoLogSql
+//@   trusted
+//@   ensures true
+//@ func Int64Slice2Str
+//@   trusted
+//@   ensures true
+//@ ext strings.Join
+//@   ensures true
+//@ func (*BaseUndoLogManager).BatchDeleteUndoLog
+//@   prop C11
+//@   requires conn != nil && !ghost.step_failed
+//@   modifies ghost.step_failed, ghost.execs, ghost.stmts_open
+//@   ensures deleted-means-executed: result == nil ==> ghost.execs == old(ghost.execs) + 1 && !ghost.step_failed
+//@   ensures failure-surfaces: ghost.step_failed ==> result != nil
+//@   ensures at-most-one-statement: ghost.execs <= old(ghost.execs) + 1
+//@   ensures releases-stmt: ghost.stmts_open == old(ghost.stmts_open)
